@@ -147,8 +147,12 @@ def broadcast(ex, a, b):
             ex.throw("ValueError", "operands could not be broadcast together")
 
     def pick(c, modes):
-        def f(idx, c=c, modes=modes):
-            return c.elem(tuple((z3.IntVal(0) if m == "zero" else idx[k]) for k, m in enumerate(modes) if m != "skip"))
+        el = c.elem          # the operand's content NOW (numpy computes eagerly; the cell may be overwritten later)
+        if all(m == "idx" for m in modes):
+            return el
+
+        def f(idx, el=el, modes=modes):
+            return el(tuple((z3.IntVal(0) if m == "zero" else idx[k]) for k, m in enumerate(modes) if m != "skip"))
         return f
     return tuple(out), pick(ca, ma), pick(cb, mb)
 
